@@ -71,7 +71,7 @@ def strategy_(draw, tier):
         c["table"] = draw(st.one_of(tables.synthetic_spec(nmax=300, families=("power", "kinked", "realgas")), tables.synthetic_spec(nmax=300, families=("power", "kinked", "realgas")), tables.shipped_spec()))
     # the same fluid in another unit of viscosity (tables.build): the scaled problem does not change, absolute
     # diffusivities do (1e15 gives alpha ~ 1e-11)
-    c["table"] = dict(c["table"], mu_unit=draw(st.sampled_from([0, 0, 0, -3, 3, 12, 15, -6])))
+    c["table"] = dict(c["table"], mu_unit=draw(st.sampled_from([0, 0, 0, -3, 3, 12, 15, -6, -9])), p_unit=draw(st.sampled_from([1.0, 1.0, 1.0, 6894.757, 0.06894757])))
     c["pi_frac"] = draw(st.floats(0.3, 1.0))
     c["pi_on_node"] = draw(st.booleans())
     c["rows"] = "descending" if draw(st.integers(0, 5)) == 0 else "ascending"
